@@ -35,8 +35,13 @@ from mpyc import gfpx  # noqa: E402
 LEVEL = 'proof'
 LEAN_MODULES = ['MpycV.Props.C23']
 LEAN_NAMESPACES = ['MpycV.C23']
-# >>> PLACEHOLDER: to be filled in by the coordinator once lean/MpycV/Props/C23.lean exists <<<
-REQUIRED_THEOREMS = []
+REQUIRED_THEOREMS = [
+    'normalised_preserved', 'normalised_preserved_div', 'toPoly_injective', 'toPoly_hom', 'sq_eq_mul_self',
+    'ring_laws', 'divmod_spec', 'mod_floordiv_consistent', 'gcd_spec', 'gcdext_bezout', 'invert_spec',
+    'invert_reduced', 'powmod_spec', 'pow_spec', 'powmod_neg_spec', 'powmod_unreduced_witness',
+    'bin_list_agree', 'bin_eval_agree_odd', 'bin_eval_even_finding', 'bin_eval_even_witness',
+    'lt_lex', 'int_roundtrip', 'eval_horner', 'table_p3_deg2',
+]
 
 RULE = (
     'A case is one (class, operands) tuple on which the real gfpx code is evaluated; classes are GFpX(p) for '
@@ -44,8 +49,9 @@ RULE = (
     'generic list code of gfpx.Polynomial instantiated at p = 2 next to BinaryPolynomial. '
     'Exhaustive: every polynomial of degree <= 3 incl. 0 (unary ops, shifts 0..3, evaluation at -2..p+1, '
     'indexing, int/list/tuple/str constructors, powmod with n in -3..6 and 13 moduli incl. None/0/constants/'
-    'reducible/irreducible); every ordered PAIR for p in {2,3} (degree <= 3) and p in {5,7} (degree <= 2; '
-    'thorough: p = 5 degree <= 3) plus a seeded sample of pairs involving degree 3; ring laws on all triples of '
+    'reducible/irreducible); every ordered PAIR for p in {2,3} (degree <= 3) and p in {5,7} (degree <= 2; quick tier '
+    'p = 7: 6 of the 9 pair operations per pair, rotating; thorough: all 9, and p = 5 up to degree 3) plus a seeded '
+    'sample of pairs involving degree 3; ring laws on all triples of '
     'degree <= 3 (p=2) / <= 2 (p=3) and random triples otherwise. Random: degrees -1..40 with shapes generic/'
     'equal operands/b divides a/common factor/constant/zero/monic and non-monic divisors. Every operation is '
     'reached through several entry points (operator, reflected operator with int/list/tuple/str operand, class '
@@ -73,6 +79,18 @@ ASSUMPTIONS = [
 TRUSTED = ['harness/gfpx_oracle.py (independent schoolbook reference)',
            'lean/Drv/GFpX.lean line-protocol driver (parsing/printing of the model values)']
 
+# Known genuine deviations of the real code (reported once each, minimal instance, under these stable keys; the
+# correspondence still agrees on them because the Lean model transcribes the code as it is):
+KNOWN_DEVIATIONS = {
+    'C23-powmod-unreduced': 'powmod(a, 1, b) returns a unreduced when deg a >= deg b, powmod(a, 0, b) returns 1 for a '
+                            'nonzero constant b (expected 0); congruent to a^n but not the canonical representative. '
+                            'E.g. GF(3): powmod(x^5, 1, x^2+1) = x^5, expected x. Both classes.',
+    'C23-binary-eval-even': 'BinaryPolynomial.__call__(x) returns 0 for every even x; expected the constant coefficient. '
+                            'E.g. GF(2): (x+1)(0) = 0, expected 1.',
+    'C23-binary-reverse-unpadded': 'BinaryPolynomial.reverse(d) with d < degree does not pad the truncated polynomial back '
+                                   'to d+1 coefficients before reversing, the generic list code does (representations '
+                                   'disagree for p = 2). E.g. GFpX(2)(5).reverse(1) = 1, expected x (= reverse of 1 + 0x).',
+}
 FINDING_POWMOD = 'C23-powmod-unreduced'
 FINDING_EVAL = 'C23-binary-eval-even'
 FINDING_REVERSE = 'C23-binary-reverse-unpadded'
@@ -1219,7 +1237,7 @@ def build_jobs(ctx, nodriver=False):
         nops = None if T or p == 5 else 6          # quick, p = 7: 6 of the 9 pair operations per pair, rotating
         for lo, hi in _chunks(0, n, max(1, n * n // 8000)):
             add_pairs(str(p), ('grid', lo, hi, n), (hi - lo) * n, 1, nops)
-        cnt = ctx.scale(6000, 400000 if p == 7 else 100000)
+        cnt = ctx.scale(6000, 250000 if p == 7 else 60000)
         sample = _sample_pairs(ctx.subrng('pairs3', p), p, cnt)
         for lo, hi in _chunks(0, cnt, max(1, cnt // 6000)):
             add_pairs(str(p), ('list', sample[lo:hi]), hi - lo, 1)
@@ -1240,9 +1258,9 @@ def build_jobs(ctx, nodriver=False):
         for lo, hi in _chunks(0, cnt, max(1, cnt // 3000)):
             add_laws(str(p), ('list', tr[lo:hi]), hi - lo)
     # ---- (ii) random larger primes --------------------------------------------------------------
-    for p, cnt, parts, light in ((11, ctx.scale(300, 4000), ctx.scale(2, 8), False),
-                                 (101, ctx.scale(300, 4000), ctx.scale(2, 8), False),
-                                 (P61, ctx.scale(120, 1500), ctx.scale(8, 16), True)):
+    for p, cnt, parts, light in ((11, ctx.scale(300, 5000), ctx.scale(2, 8), False),
+                                 (101, ctx.scale(300, 5000), ctx.scale(2, 8), False),
+                                 (P61, ctx.scale(120, 2000), ctx.scale(8, 16), True)):
         for part in range(parts):
             c = -(-cnt // parts)
             add('random', str(p), c * (0.25 if light else 0.02), count=c, maxdeg=40, light=light,
